@@ -538,6 +538,22 @@ def _opt_ok_or(self, args):
     return ("agg", "adt", "std::result::Result", "Ok", (o[4][0],), 0)
 
 
+def _opt_ok_or_else(self, args):
+    o, f = args
+    if not _is_opt(o):
+        raise Unknown("ok_or_else on non-constant option")
+    if o[3] == "None":
+        return ("agg", "adt", "std::result::Result", "Err", (_call_closure(self, f, []),), 1)
+    return ("agg", "adt", "std::result::Result", "Ok", (o[4][0],), 0)
+
+
+def _opt_unwrap_or_else(self, args):
+    o, f = args
+    if not _is_opt(o):
+        raise Unknown("unwrap_or_else on non-constant option")
+    return _call_closure(self, f, []) if o[3] == "None" else o[4][0]
+
+
 def _opt_or(self, args):
     a, b = args
     if not _is_opt(a):
@@ -615,6 +631,8 @@ STD_MODELS = {
     "std::option::Option::<T>::map": _opt_map,
     "std::option::Option::<T>::map_or": _opt_map_or,
     "std::option::Option::<T>::ok_or": _opt_ok_or,
+    "std::option::Option::<T>::ok_or_else": _opt_ok_or_else,
+    "std::option::Option::<T>::unwrap_or_else": _opt_unwrap_or_else,
     "std::option::Option::<T>::or": _opt_or,
     "std::option::Option::<T>::is_some": _opt_is("Some"),
     "std::option::Option::<T>::is_none": _opt_is("None"),
